@@ -15,7 +15,7 @@ package scheduler
 //@ func (pc *PartitionContext) decReservationCount(num int)
 //@   props C09
 //@   mode nopanic=off
-//@   requires num > -4611686018427387904 && num < 4611686018427387904
+//@   holds num > -4611686018427387904 && num < 4611686018427387904
 //@   assigns pc.reservations
 //@   ensures pc.reservations == old(pc.reservations) - num
 
@@ -159,3 +159,18 @@ package scheduler
 //@   props C13
 //@   sweep
 //@   holds cc != nil && event != nil && event.Request != nil
+
+// ================================================================ C04: what the shim is told
+
+// a scheduling result is handed back for announcement only if its application is still registered and its target
+// node is still registered, and the allocation is stamped with that node
+//@ func (pc *PartitionContext) allocate(result *objects.AllocationResult) (out *objects.AllocationResult)
+//@   props C04 C09
+//@   sweep
+//@   mode nopanic=off
+//@   ensures[live] out != nil ==> out == result && appfound(pc, result.Request.applicationID) && nodefound(pc, result.NodeID) && result.Request.nodeID == result.NodeID
+//@   at[app] call scheduler.PartitionContext.getApplication#1 after: assume ret != nil ==> appfound(pc, arg1)
+//@   at[node] call scheduler.PartitionContext.GetNode#1 after: assume ret != nil ==> nodefound(pc, arg1)
+//@   at[cancelled] call scheduler.PartitionContext.decReservationCount#1: assert arg1 == result.CancelledReservations
+//@ spec abstract appfound(p *PartitionContext, id string) bool
+//@ spec abstract nodefound(p *PartitionContext, id string) bool
